@@ -370,15 +370,11 @@ def leaves(tier):
     q += [["ConvolveData", [4], [2], "full", None, False], ["ConvolveData", [2, 4], [1, 2, 3], "full", None, True],
           ["ConvolveData", [3, 4], [2, 2], "valid", [2, 1], False], ["ConvolveFilter", [2], [4], "valid", None, False],
           ["ConvolveFilter", [2, 1, 2], [3, 1, 3], "full", [2], True], ["ConvolveDataAdjoint", [4], [3], "full", [2], False],
-          ["ConvolveFilterAdjoint", [2, 2], [3, 3], "valid", None, False]]
+          ["ConvolveFilterAdjoint", [2, 2], [3, 3], "valid", None, False], ["ConvolveData", [2], [3], "valid", [2], False]]
     for m in (1, 2, 3, 4):
         for n in (1, 2, 3, 4):
             for mode in ("full", "valid"):
                 for s in (1, 2, 3):
-                    if mode == "valid" and (abs(m - n) + 1 + s - 1) // s < 1:
-                        continue
-                    if mode == "valid" and n > m and (m - n + 1 + s - 1) // s < 1:
-                        continue
                     t.append(["ConvolveData", [m], [n], mode, [s], False])
                     t.append(["ConvolveFilter", [n], [m], mode, [s], False])
     t += [["ConvolveData", [2, 2, 3], [2, 2, 2, 2], "full", None, True], ["ConvolveData", [2, 3, 3], [2, 2], "valid", [1, 2], False],
